@@ -59,6 +59,17 @@ CLAIMED.update({
             "executed on the real bodies; round_quot(None) = round_quot(Some(default())) for all operands; every public rounding call site passes None; schedules "
             "replayed on real threads.", "2 C19"),
 })
+CLAIMED.update({
+    "C06": ("Kani harnesses over the real str_to_dec (all UTF-8 strings up to a length bound, literal level) against an independent reference recogniser, SWAR helpers for "
+            "all u64; mir2smt with a byte-slice model for canonical shapes, 30-41 digit mantissas at every dot position, over-long mantissas and exponent shapes "
+            "(digits symbolic); from_str's exponent folding for every (coefficient, exponent) pair.", "2 C06, 9.2"),
+    "C07": ("String::from / Debug / Display (no precision): the values handed to core::fmt are ('-' iff c<0, |c| div 10^p, |c| mod 10^p, width p) for all (c, p); template "
+            "constants byte-identical to the documented format strings compiled by the same compiler; round trip through the parser via the canonical shapes of C06.", "2 C07"),
+    "C11": ("Display::fmt under every precision (None, 0..=18, symbolic >= 19), scale, mode: digits handed to core::fmt are those of the singly rounded / zero-extended "
+            "value, sign flag from d, empty prefix; width/fill/flags are pad_integral's documented behaviour (arguments checked).", "2 C11"),
+    "C18": ("the macro's post-processing of str_to_dec's result (fpdec-macros MIR) vs. from_str's folding, executed on the same symbolic (coefficient, exponent) / error: "
+            "emits new_raw(C, N) iff from_str is Ok((C, N)), panics iff Err; generated programs with boundary literals compiled with the real macro (validated only).", "2 C18"),
+})
 NA = {}
 
 def main():
@@ -89,7 +100,7 @@ def main():
                   "baseline_off_cmd": "cd /repo && cargo test --workspace --no-fail-fast --offline", "source_commits": ["9654da5"], "add_only": True},
         "engines": [
             {"name": "mir2smt", "path": "/verif/mir2smt", "serves_properties": sorted(CLAIMED), "kind_free_text": "MIR -> SMT symbolic executor (z3 5.1, Int theory), path-wise with optional state merging"},
-            {"name": "kani", "path": "/verif/kani", "serves_properties": ["C15"], "kind_free_text": "Kani 0.68 / CBMC 6.11 proof harnesses over the real crate (path dependency)"},
+            {"name": "kani", "path": "/verif/kani", "serves_properties": ["C06", "C15"], "kind_free_text": "Kani 0.68 / CBMC 6.11 proof harnesses over the real crate (path dependency)"},
         ],
         "checks": checks,
         "not_applicable": na,
